@@ -2,6 +2,7 @@
 #![allow(clippy::too_many_arguments)]
 
 mod gen;
+mod hist;
 mod props;
 mod runner;
 mod selftest;
